@@ -22,7 +22,7 @@ variable (w : World Rat)
 def absQueue (w : World Rat) (q : Name) : USim.Prim.Stream.QSt :=
   { buffer := (w.queues.getD q default).buffer, closed := (w.queues.getD q default).closed }
 
-theorem getD_modify_self' {α} [Inhabited α] (a : Array α) (i : Nat) (f : α → α) (h : i < a.size) :
+theorem getD_modify_at {α} [Inhabited α] (a : Array α) (i : Nat) (f : α → α) (h : i < a.size) :
     (a.modify i f).getD i default = f (a.getD i default) := by
   rw [Array.getD_eq_getD_getElem?, Array.getD_eq_getD_getElem?, Array.getElem?_modify]
   simp [h]
@@ -99,7 +99,7 @@ theorem qPut_refines (a : ActId) (fs : List (Frame Rat)) (q : Name) (v : Int) (h
       (USim.Prim.Stream.qstep (w.absQueue q) (.put (v * 1000 + w.putCount))).closed := by
   cases h : (w.queues.getD q default).closed
   · have e := qPut_open_queues w a fs q v h
-    simp only [absQueue, USim.Prim.Stream.qstep, e, getD_modify_self' _ _ _ hq, h, Bool.false_eq_true, if_false, and_self]
+    simp only [absQueue, USim.Prim.Stream.qstep, e, getD_modify_at _ _ _ hq, h, Bool.false_eq_true, if_false, and_self]
   · have e := qPut_closed_eq w a fs q v h
     rw [e, absQueue_congr q (raiseNew_q _ _ _ _)]
     simp only [absQueue, USim.Prim.Stream.qstep, h, if_true]
@@ -113,7 +113,7 @@ theorem qClose_refines (a : ActId) (fs : List (Frame Rat)) (q : Name) (hq : q < 
   cases h : (w.queues.getD q default).closed
   · rw [h] at e
     simp only [Bool.false_eq_true, if_false] at e
-    simp only [absQueue, USim.Prim.Stream.qstep, e, getD_modify_self' _ _ _ hq, and_self]
+    simp only [absQueue, USim.Prim.Stream.qstep, e, getD_modify_at _ _ _ hq, and_self]
   · rw [h] at e
     simp only [if_true] at e
     simp only [absQueue, USim.Prim.Stream.qstep, e, h, and_self]
@@ -131,7 +131,7 @@ theorem qGetPop_refines (a : ActId) (fs : List (Frame Rat)) (v : Val) (q : Name)
     rw [qGetPop_eq w a fs v q x rest hbuf, absQueue_congr q (retTo_q _ _ _ _)]
     have e : ({ w with queues := w.queues.modify q (fun y => { y with buffer := rest }) } : World Rat).queues =
         w.queues.modify q (fun y => { y with buffer := rest }) := rfl
-    simp only [absQueue, USim.Prim.Stream.qstep, e, getD_modify_self' _ _ _ hq, hbuf, and_self]
+    simp only [absQueue, USim.Prim.Stream.qstep, e, getD_modify_at _ _ _ hq, hbuf, and_self]
 
 /-! ### non-vacuity: a queue with two buffered items -/
 def exampleQueueWorld : World Rat :=
